@@ -17,7 +17,7 @@ CONF = dict(
 )
 
 TEXT = dict(
-    text='Machine-checked proof (Coq), partial: for the transaction, header and block decoders the model is proved extension-stable (so no strict prefix of a valid encoding is accepted), every length field is checked against the remaining input before use, and accepted values occupy exactly the consumed bytes; totality is by construction (the model is a total function whose only outcomes are value/reject, and the implementation is compared with it on a malformed stream). The remaining decoders are decided here by an implementation-side oracle over mutated valid encodings (panic, allocation, prefix, follow-up operations) and have their codec theorems under C07/C08/C14/C15/C16/C20.',
+    text='Machine-checked proof (Coq), partial: for the transaction, header and block decoders the model is proved extension-stable (so no strict prefix of a valid encoding is accepted), every length field is checked against the remaining input before use, and accepted values occupy exactly the consumed bytes; totality is by construction (the model is a total function whose only outcomes are value/reject, and the implementation is compared with it on a malformed stream). The remaining decoders are decided here by an implementation-side oracle over mutated valid encodings (panic, allocation, prefix, follow-up operations) and have their codec theorems under C07/C08/C14/C15/C16/C20. PSET v2 (C12_psetv2_*, model Model/PsetV2.v): the decoder is a stream reader that leaves the bytes after the last output section unread (NewPsetFromBuffer / NewPsetFromBase64 do not test for the end of the input, like the PSET v0 and transaction decoders), so "valid encoding" means a serializer output: proved are extension-stability, dependence on the consumed bytes only, rejection (an error, never a panic) of every strict prefix of the serialization of a well-formed packet and of every prefix that stops short of the consumed bytes, and exact consumption of serializations; an accepted input followed by anything stays accepted with the same packet.',
     note=COMMON_NOTE + 'Partial: the Go allocator and the external decoders are not modelled; allocation is measured, not proved. Control blocks are not prefix-free by format (a cut at a node boundary is a complete control block), such prefixes are not counted.',
     technique='Coq proof (extension-stability => prefix rejection, bounded slices) + malformed-stream differential check + implementation-side decoder oracle',
 )
